@@ -16,6 +16,13 @@ COMMON_NOTE = (
 
 # id -> (level category, level text, technique, design ref, extra note)
 CLAIMED = {
+    "C18": (
+        "other",
+        "Mixed, stated per part in the evidence. PROVED (contracts): for every RSL construction site (2736 class x order x nf sites, splitting labels, TMC kernels, distribution helpers) the largest index any part reads from its argument array -- recorded by a read-recording array while the real kernel runs symbolically on every path -- is below the length RSL.__init__ packs (the obligation compiled code needs, since it does no bounds checking); AST obligations on all 143 njit functions (explicit eager signature, no //, %, int**(-int), `is`, global, reflected containers). NOT provable by contracts and therefore only BOUNDED stand-ins, never counted as discharged: all 143 declared signatures compile with the JIT on (exhaustive), dispatcher-vs-py_func differential on N sampled arguments per kernel (quick N=4, thorough N=400), one NLO end-to-end run per process (NC, CC; TMC, scale variations) with the JIT on vs off.",
+        "contract-based deductive verification for index bounds / semantic-fork lint; bounded differential JIT-vs-interpreter evaluation as labelled stand-in",
+        "DESIGN 4 C18",
+        "equality of generated machine code and Python semantics for all inputs is numba/LLVM correctness: outside the reach of contracts (bounded only).",
+    ),
     "C04": (
         "proof",
         "NLO closed forms: the real NLO quark and gluon kernels of F2, FL, F3, g1 (through the real NC/CC classes, nf 3..6) are identical, as elements of Q(z, ln z, ln(1-z)) with z3-justified log expansion, to the published closed forms (regular part, plus distributions, delta coefficient) for all z in (0,1). Sum rules: the first moment int_0^1 reg + loc(0+) of the real non-singlet kernels (Adler: F2 nu-nubar at orders 1-3; GLS/Bjorken: F3 and g1 at the available orders, nf 3..6) is computed by exact term-wise reduction of the kernel's symbolic normal form to a table of definite integrals and equals the analytic value (exactly at NLO, within 1e-4 of the cancellation scale for the fitted parametrisations).",
